@@ -5,13 +5,13 @@
 EXTENDS ConcSave, TraceBase
 
 VARIABLE l
-tvars == <<todo, grp, pc, nxt, table, idx, part, dump, rel, l>>
+tvars == <<todo, grp, base, pc, nxt, table, idx, part, dump, rel, l>>
 
 PointOf(p) == CASE p = "begin" -> 1 [] p = "reg" -> 2 [] p = "chk" -> 3 [] p = "dump" -> 4
                 [] p = "rels" -> 5 [] p = "end" -> 6 [] p = "done" -> 0
 
 Become(n) == /\ pc' = n.pc /\ nxt' = n.nxt /\ table' = n.table /\ idx' = n.idx
-             /\ part' = n.part /\ dump' = n.dump /\ rel' = n.rel /\ UNCHANGED <<todo, grp>>
+             /\ part' = n.part /\ dump' = n.dump /\ rel' = n.rel /\ UNCHANGED <<todo, grp, base>>
 
 (* what saver t's file must look like (view of pydec/sst_view.py + flattened cell texts) *)
 FileOK(t, o) ==
@@ -19,15 +19,15 @@ FileOK(t, o) ==
   /\ o.view.wellformed /\ o.view.bad_index = 0
   /\ o.view.has_part = part[t] /\ o.view.has_rel = rel[t] /\ o.view.has_ct = part[t]
   /\ o.view.sst = dump[t]              \* exactly the table a solo save would dump, nothing foreign
-  /\ o.cells = todo[t]                 \* every text cell shows its own string
+  /\ o.cells = o.want                  \* every text cell (raw sheets included) shows its own string
 
 Ev == Rec[l]
 Step1(e) ==
   IF e.a = "Fatal" THEN UNCHANGED cvars /\ Mismatch(l, <<"impl", "fatal", e.outcome>>)
   ELSE IF e.a = "Start"
-  THEN /\ todo' = e.todo /\ grp' = e.grp
+  THEN /\ todo' = e.todo /\ grp' = e.grp /\ base' = e.base
        /\ pc' = [t \in DOMAIN e.todo |-> "begin"] /\ nxt' = [t \in DOMAIN e.todo |-> 1]
-       /\ table' = [t \in DOMAIN e.todo |-> <<>>] /\ idx' = [t \in DOMAIN e.todo |-> <<>>]
+       /\ table' = e.base /\ idx' = [t \in DOMAIN e.todo |-> <<>>]
        /\ part' = [t \in DOMAIN e.todo |-> FALSE] /\ dump' = [t \in DOMAIN e.todo |-> <<>>]
        /\ rel' = [t \in DOMAIN e.todo |-> FALSE]
   ELSE IF e.a = "Step"
@@ -51,7 +51,7 @@ Step1(e) ==
                                   e.outs[MinOf(bad)].view.has_rel>>)
   ELSE UNCHANGED cvars /\ Mismatch(l, <<"gen", e.a>>)
 
-TraceInit == /\ l = 1 /\ todo = <<>> /\ grp = <<>> /\ pc = <<>> /\ nxt = <<>> /\ table = <<>> /\ idx = <<>>
+TraceInit == /\ l = 1 /\ todo = <<>> /\ grp = <<>> /\ base = <<>> /\ pc = <<>> /\ nxt = <<>> /\ table = <<>> /\ idx = <<>>
              /\ part = <<>> /\ dump = <<>> /\ rel = <<>>
 TraceNext == l <= Len(Rec) /\ l' = l + 1 /\ Step1(Ev)
 TraceSpec == TraceInit /\ [][TraceNext]_tvars
